@@ -4,7 +4,7 @@
 # Works in ONE scratch worktree outside /repo and /verif and removes it at the end.
 set -u
 W=/tmp/seedconfirm
-OUT=/verif/selftest/confirm_seeded.log
+OUT=${CONFIRM_OUT:-/verif/selftest/confirm_seeded.log}
 export CARGO_NET_OFFLINE=true CARGO_TERM_COLOR=never
 git -C /repo worktree remove --force $W 2>/dev/null
 git -C /repo worktree add -q --detach $W HEAD || exit 2
@@ -15,6 +15,7 @@ for d in /verif/seeded/*/; do
   id=$(basename $d)
   [ -n "$only" ] && [ "$only" != "$id" ] && continue
   [ -f $d/patch.diff ] || continue
+  [ -n "${ONLY_ROUND2:-}" ] && [ ! -f $d/.round ] && continue
   cd $W && git checkout -q -- . && git clean -fdq wgsl_to_wgpu/tests
   demo=demo_$(echo $id | tr '-' '_' | tr 'A-Z' 'a-z')
   if [ -d $d/demo ]; then echo "$id: standalone demo dir (manual)" >> $OUT; continue; fi
